@@ -22,6 +22,10 @@ CLAIMED = {
          "Machine-checked proof that the modelled send produces EFF-set/RTR-ERR-clear frames carrying id, length and data, that receive masks to 29 bits and pads with 0xFF to 8 bytes, and that Filter::matches equals the reference accept/reject predicate for every list; tied to the code by raw 16-byte frames exchanged with the real ControlNetwork over the verif bus seam and by all filter lists up to 2 (3 thorough) entries over all 16 field masks.",
          "The seam replaces only socket creation and the final send syscall; the marshalling lines are the production ones. DLC > 8 cannot occur on classic CAN and would index out of bounds in CANSocket::recv (excluded by the property). Kernel CAN stack trusted.",
          "DESIGN.md section 4 C17"),
+ "C13": ("Lean 4 theorems over the wire model (header layout, exact header parser over all 10-byte strings, distinct type codes, fixed sizes, size bound, decode-encode round trip for all twelve kinds by induction on lists, totality of recv_packet) + differential run of send_packet / Frame::try_from / recv_packet incl. every truncation and single-byte substitution",
+         "Machine-checked proof that the model's twelve encoders/decoders and the header codec satisfy every clause for all objects within the stated bounds and all byte strings; tied to the code by encoding objects of every kind with the real send_packet (bit-exact), parsing headers (all types x boundary lengths, every single-byte corruption) with the real Frame::try_from, and receiving every kind at every declared size 0..64/1023..1025 with truncated, substituted and random payloads through the real recv_packet under catch_unwind.",
+         "f32 fields are opaque bit patterns: Euler<->matrix conversion (nalgebra) is outside the model and compared numerically by the harness; from_utf8_lossy on invalid UTF-8 is not modelled (names compared only when valid). One recorded finding: Actor payloads can exceed 1024 bytes within the stated string bounds (KNOWN_FINDINGS.txt, Lean witness C13_actor_exceeds).",
+         "DESIGN.md section 4 C13"),
 }
 NOT_YET = "check not built yet in this round (planned: Lean model + correspondence, see DESIGN.md section 4)"
 
@@ -50,7 +54,7 @@ m = {
   "guard": "cargo feature `verif` of crate glonax (glonax-runtime)",
   "enable": "the harness depends on glonax with features=[\"verif\"]; real binaries: cargo build --features glonax/verif",
   "baseline_off_cmd": "cd /repo && cargo test --workspace --no-fail-fast --offline",
-  "source_commits": [],
+  "source_commits": ["3918635"],
   "add_only": True,
  },
  "engines": [{
